@@ -2,4 +2,4 @@ From Coq Require Import Extraction ExtrOcamlBasic.
 From GoSyn Require Import Driver.
 Extraction Language OCaml.
 
-Extraction "../extract/model.ml" run_tokens oracle_num oracle_rune oracle_string esc_str run_parse_file run_parse_expr run_parse_stmt run_parse_stmts run_state_file run_state_expr run_state_stmt run_state_stmts.
+Extraction "../extract/model.ml" run_tokens oracle_num oracle_rune oracle_string esc_str run_parse_file run_parse_expr run_parse_stmt run_parse_stmts run_state_file run_state_expr run_state_stmt run_state_stmts run_site_file run_site_expr run_site_stmt.
